@@ -422,7 +422,7 @@ impl Property for C05 {
 
 /// serialise a store document with the member order the writer itself uses (the reader is a streaming
 /// one: resources and datasets must precede the annotations that refer to them)
-fn ordered_doc(doc: &serde_json::Value) -> String {
+pub fn ordered_doc(doc: &serde_json::Value) -> String {
     const ORDER: [&str; 20] = [
         "@type", "@id", "@include", "resources", "annotationsets", "annotations", "text", "keys", "target", "set", "resource",
         "annotation", "annotationset", "key", "offset", "selectors", "begin", "end", "value", "data",
